@@ -32,8 +32,8 @@ vars == <<tpl, ord, nl, maps, tgt, ci, ri, req, stage, sc>>
 
 Empty == [n \in {} |-> 0]
 Rx(name, subs, prods, args, mapped) ==
-    [name |-> name, subs |-> subs, prods |-> prods, args |-> args, mapped |-> mapped, map |-> <<>>]
-InitOf == [A |-> 4, B |-> 3, C |-> 5, D |-> 6, X |-> 2, Y |-> 1]
+    [name |-> name, subs |-> subs, prods |-> prods, args |-> args, mapped |-> mapped, map |-> <<>>, den |-> 1]
+InitOf == [A |-> 4, B |-> 3, C |-> 5, D |-> 6, X |-> 2, Y |-> 1, Z |-> 7]
 Pars   == [k0 |-> 6, k1 |-> 3, k2 |-> 2, k3 |-> 5]
 
 \* lab: the compounds that receive label positions, in the order in which counts are chosen
@@ -87,6 +87,11 @@ Tpl(id) ==
                            rxns |-> <<Rx("v1", <<"A", "A", "B">>, <<"C">>, <<"A", "B", "A", "k1">>, TRUE)>>]
       [] id = "trimer" -> [cpds |-> <<"A", "B">>, lab |-> <<"A", "B">>, der |-> Empty,
                            rxns |-> <<Rx("v1", <<"A">>, <<"B", "B", "B">>, <<"A", "k1">>, TRUE)>>]
+      \* an unmapped bystander with NON-INTEGER coefficients X -> 0.5 Y + 1.5 Z (unit counts 2, 1, 3 over den = 2; its rate X * A * k2 is
+      \* even because k2 = 2) next to a mapped reaction: the bystander part of the dynamics must survive unchanged
+      [] id = "frac"   -> [cpds |-> <<"A", "X", "B", "Y", "Z">>, lab |-> <<"A", "B">>, der |-> Empty,
+                           rxns |-> <<Rx("v1", <<"A">>, <<"B">>, <<"A", "k1">>, TRUE),
+                                      [Rx("v2", <<"X", "X">>, <<"Y", "Z", "Z", "Z">>, <<"X", "A", "k2">>, FALSE) EXCEPT !.den = 2]>>]
       [] id = "chain"  -> [cpds |-> <<"A", "B">>, lab |-> <<"A", "B">>, der |-> Empty,
                            rxns |-> <<Rx("v0", <<>>, <<"A">>, <<"k0">>, TRUE),
                                       Rx("v1", <<"A">>, <<"B">>, <<"k1", "A">>, TRUE),
@@ -216,5 +221,8 @@ ThSum   == Ok => LET idx == IsoIndex(sc.b)
 \* placement keeps the amount of every compound (InitRule, on the stored values)
 ThInit  == Ok => LET idx == IsoIndex(sc.b) IN \A c \in CpdSet(sc.b) : TotalOfI(idx, sc.init, c) = sc.b.init[c]
 \* rejection is decided by the length of the map alone
+\* non-integer coefficients: every rate of such a reaction is a multiple of the denominator (so the integer arithmetic is exact)
+ThDen   == Ok => \A k \in 1..NPts : \A j \in Unmapped(sc.b) :
+                    (BRate(sc.b, sc.pts[k].tot, sc.b.rxns[j]) % Den(sc.b.rxns[j])) = 0
 ThReject == Done => ((sc.outcome = "rejected") <=> (\E j \in MappedIdx : Len(maps[j]) < SLab(sc.b, sc.b.rxns[j])))
 =============================================================================
